@@ -19,7 +19,7 @@ CLAIMS = {
  "C11": dict(
   technique="runtime monitor against an exact integer model: real record life-time functions driven under a virtual clock (component), refresh/flush/expiry observed on the simulated wire (world)",
   text="Every TTL 1..600 (thorough ..3000) and large values up to u32::MAX are run through observation sequences (at the marks, +-1 ms around every boundary, skipping marks, with fresh copies) and each answer of the real record (expired, half-life, refresh due, written known-answer TTL) is compared with the model of the statement.",
-  note="TTL<=1 carries no refresh obligation. World-level part: refresh queries on the wire (L2), the cache-flush rule around the one-second boundary for A and AAAA records (other interface, other family, same burst) and for TXT/SRV replaced and replaced back (L3), late wake-ups (L1).",
+  note="TTL<=1 carries no refresh obligation. World-level part: refresh queries on the wire (L2; a quarter of the cases with host-name searches for the services' hosts open next to the browse), the cache-flush rule around the one-second boundary for A and AAAA records (other interface, other family, same burst) and for TXT/SRV replaced and replaced back (L3), late wake-ups (L1).",
   ref="§6 C11"),
  "C16": dict(
   technique="runtime round-trip monitor: generated property lists through every input type -> ServiceInfo::new -> TXT RDATA (facade) -> independent TXT parser and the crate's public decoder, compared with the given list; end to end through a registering and a browsing daemon on one simulated link",
@@ -28,7 +28,7 @@ CLAIMS = {
   ref="§6 C16"),
  "C07": dict(
   technique="runtime trace monitor over the simulated wire: per registration x interface x family rules on probe count/spacing/content, announcement time, repeat and content, silence before the announcement",
-  text="Thousands of generated registration scenarios (1-3 interfaces, v4/v6, 1-4 services, shared hosts, subtypes, automatic addresses, probing on/off, staggering, forced boundary jitters, queries injected while probing, an interface appearing later) run against the real daemon under a virtual clock; every packet it emits is parsed by the independent parser and checked against P1-P6 with exact virtual-time arithmetic (lazy stepping) or +g (eager); services renamed by a conflict while probing (the C08 part R scenarios) are judged for reaching the announced state and two announcements one second apart under their final names.",
+  text="Thousands of generated registration scenarios (1-3 interfaces, v4/v6, 1-4 services, shared hosts, subtypes, automatic addresses, probing on/off, staggering, forced boundary jitters, queries injected while probing, an interface appearing later) run against the real daemon under a virtual clock; every packet it emits is parsed by the independent parser and checked against P1-P6 with exact virtual-time arithmetic (lazy stepping) or +g (eager); services renamed by a conflict while probing (the C08 part R scenarios) are judged for reaching the announced state and two announcements one second apart under their final names; services that lost a simultaneous-probe comparison (the C08 part T scenarios) must send three fresh probes before announcing (P1-after-yield).",
   note="Oversleep stepping excluded (schedule presumes the daemon is woken when it asks). Services sharing a host name use the same address set (otherwise the daemon conflicts with its own announcements, noted in DESIGN §12).",
   ref="§6 C07"),
  "C12": dict(
@@ -38,13 +38,13 @@ CLAIMS = {
   ref="§6 C12"),
  "C13": dict(
   technique="runtime trace monitor: per-channel protocol automaton over delivered events plus a wire rule (no question for a stopped type/host until a new search starts), over generated API histories observed for hours of virtual time",
-  text="Generated histories of browse / browse again / browse_cache / stop / resolve_hostname (timeouts, letter-case variants) / stop_resolve_hostname / dropped receivers / shutdown with packet arrivals, calls clustered +-1 ms around retransmission instants, watched for 20 s or 2-3 virtual hours: T1 first event SearchStarted, T2 Found before Resolved, T3 exactly one final SearchStopped (SearchTimeout first on timeout), T4 no query for the stopped name afterwards, T5 no replay from the cache on re-browse, T6 no query for a cache-only browse (also no follow-up and no new-interface query). PTR TTLs from 1 s.",
+  text="Generated histories of browse / browse again / browse_cache / stop / resolve_hostname (timeouts, letter-case variants) / stop_resolve_hostname / dropped receivers / shutdown with packet arrivals, calls clustered +-1 ms around retransmission instants, watched for 20 s or 2-3 virtual hours: T1 first event SearchStarted, T2 Found before Resolved, T3 exactly one final SearchStopped (SearchTimeout first on timeout), T4 no query for the stopped name afterwards, T5 no replay from the cache on re-browse, T6 no query for a cache-only browse (also no follow-up and no new-interface query, also when it starts on an instance cached beforehand but not resolved). PTR TTLs from 1 s.",
   note="Services of browsed types live on hosts nobody resolves by name. The cache-only finding (T6) was repaired in /repo and is recorded as fixed in known_findings.json.",
   ref="§6 C13"),
  "C14": dict(
-  technique="runtime monitor over enumerated command-queue positions and iteration splits of shutdown (simulated daemon behind the gate) + real-thread stress with resolved-receiver check",
-  text="Part A: shutdown at every position of every sequence of N<=1 (thorough N<=2) commands out of 20 kinds, released in one iteration or split over up to three, with 0-3 announced services and open searches (a third of the cases with four more open browses and searches whose receivers were dropped without a stop), plus sampled sequences to N=8: goodbyes once per announced service x family (X1), one final SearchStopped per open search (X2), Shutdown reported and every later call refused (X3), every reply receiver ever handed out resolved or closed once the daemon thread ended (X4), no panic (X5), second shutdown harmless (X6). Part B: hundreds (thorough: 20000) of real daemons on private ports with 2-8 racing client threads.",
-  note="Part B samples OS schedules. One known finding (residual send/exit race) in known_findings.json.",
+  technique="runtime monitor over enumerated command-queue positions and iteration splits of shutdown (simulated daemon behind the gate), calls injected mid-clean-up through a send hook, real-thread stress with resolved-receiver check; ThreadSanitizer and valgrind memcheck over the real-thread stress (thorough)",
+  text="Part A: shutdown at every position of every sequence of N<=1 (thorough N<=2) commands out of 20 kinds, released in one iteration or split over up to three, with 0-3 announced services and open searches (a third of the cases with four more open browses and searches whose receivers were dropped without a stop), plus sampled sequences to N=8: goodbyes once per announced service x family (X1), one final SearchStopped per open search (X2), Shutdown reported and every later call refused (X3), every reply receiver ever handed out resolved or closed once the daemon thread ended (X4), no panic (X5), second shutdown harmless (X6). Part A2: 1-4 calls issued on the daemon thread at the moment the k-th goodbye datagram of a shutdown goes out (send hook): accepted calls are answered or their channel closes. Part B: hundreds (thorough: 20000) of real daemons on private ports with 2-8 racing client threads.",
+  note="Part B samples OS schedules. Thorough also runs Part B under ThreadSanitizer (nightly, -Zbuild-std, 16 x 120 daemons) and under valgrind memcheck (8 x 25 daemons); every report block is a violation of X5; if the instrumented build cannot be made the part is recorded as not run and decides nothing. One known finding (residual send/exit race) in known_findings.json.",
   ref="§6 C14"),
  "C15": dict(
   technique="runtime crash/liveness monitor: panic hook + daemon-thread exit guard + post-input liveness probes, under hostile API arguments and hostile datagram streams in a simulated world with conflict injection",
@@ -53,22 +53,22 @@ CLAIMS = {
   ref="§6 C15"),
  "C19": dict(
   technique="runtime trace monitor with attribution: every observed PTR/A/AAAA question is matched against the back-off chain of the running search, refresh marks computed from the delivered-record history, or a new-interface event; unexplained or missing queries are violations",
-  text="The search histories of C13 over 20 s and 2-3 virtual hours plus lone searches over three virtual days: each chain instant (start, +1 s, +2 s ... doubling to 3600 s, relative to the previous actual query) must produce its query on every interface and family (B1), gaps never exceed one hour (B3), and every other query for the same question needs a refresh mark (80/85/90/95 %) of a live cached record or an interface arrival (B2); an instance delivered in stages with nobody answering gets at most three follow-up rounds, at least half a second apart (B4).",
-  note="In the search workloads follow-up and verify questions are not attributed; the follow-up exemption is judged by B4 on staged deliveries.",
+  text="The search histories of C13 over 20 s and 2-3 virtual hours plus lone searches over three virtual days: each chain instant (start, +1 s, +2 s ... doubling to 3600 s, relative to the previous actual query) must produce its query on every interface and family (B1), gaps never exceed one hour (B3), and every other query for the same question needs a refresh mark (80/85/90/95 %) of a live cached record or an interface arrival (B2); an instance delivered in stages with nobody answering gets at most three follow-up rounds, at least half a second apart (B4); the questions one verify request causes come no more often than the doubling chain started at the request allows (B5).",
+  note="In the search workloads follow-up and verify questions are not attributed; the exemptions are judged by B4 on staged deliveries and by B5 on single verify requests.",
   ref="§6 C19"),
  "C03": dict(
   technique="runtime trace monitor against a delivered-record history model: every ServiceResolved event is checked against the lives (reception, TTL, goodbye, cache-flush displacement, verify cuts) of the records actually delivered to the daemon",
-  text="Thousands of browser scenarios (1-3 scripted services, TTLs 1 s..4500 s per record type, shared hosts, several addresses, v4/v6; announce / split announce / cache-flush updates / goodbye / partial goodbye / vanish / verify / foreign records; responders answering never / always / sometimes; loss, duplication and delay; lazy, eager and oversleep stepping; horizon 3 x largest TTL): instance names with capitals and spaces; values updated and updated back right after a re-announcement: every field of every ServiceResolved must come from records delivered for that instance and live at that instant, and of several live SRV or TXT records the one received last is shown (S1-S4, S1-latest, S3-latest).",
+  text="Thousands of browser scenarios (1-3 scripted services, TTLs 1 s..4500 s per record type, shared hosts, several addresses, v4/v6; announce / split announce / cache-flush updates / goodbye / partial goodbye / vanish / verify / foreign records; responders answering never / always / sometimes; loss, duplication and delay; lazy, eager and oversleep stepping; horizon 3 x largest TTL): instance names with capitals and spaces; values updated and updated back right after a re-announcement: every field of every ServiceResolved must come from records delivered for that instance and live at that instant, and of several live SRV or TXT records the one received last is shown (S1-S4, S1-latest, S3-latest); the two-interface scenarios of C18 part P are judged for the interface tags of the addresses shown.",
   note="Records keep one spelling and one cache-flush setting per identity. Same-instant deliveries are judged leniently (before/during). Trusts the history model (harness/src/model.rs).",
   ref="§6 C03"),
  "C04": dict(
   technique="runtime trace monitor over enumerated delivery orders and packet splits: completeness instants computed from the delivered records, ServiceFound/ServiceResolved required at that very instant; follow-up questions timed on the simulated wire",
-  text="The 4-7 records of an instance in every order and every split into up to four packets (exhaustive for 4 records quick / 5 thorough, sampled beyond), answer or additional section, duplicates, foreign records, 1-3 instances, hostile labels, host names in another letter case; PTR-only deliveries with the daemon's follow-up questions answered on try 1/2/3/never: Found then Resolved at the instant the last needed record arrives (F1), follow-ups within 500 ms, 500 ms apart, at most three (F2) - also for an instance that was withdrawn or expired and comes back with a lone PTR, for services carrying an unbrowsed subtype and with PTR answers of other types around ours -, reported name is the registered one (F3).",
+  text="The 4-7 records of an instance in every order and every split into up to four packets (exhaustive for 4 records quick / 5 thorough, sampled beyond), answer or additional section, duplicates, foreign records, 1-3 instances, hostile labels, host names in another letter case, earlier searches of the type (browse / browse_cache, stopped or replaced) before the judged one; PTR-only deliveries with the daemon's follow-up questions answered on try 1/2/3/never: Found then Resolved at the instant the last needed record arrives (F1), follow-ups within 500 ms, 500 ms apart, at most three (F2) - also for an instance that was withdrawn or expired and comes back with a lone PTR, for services carrying an unbrowsed subtype and with PTR answers of other types around ours -, reported name is the registered one (F3).",
   note="No obligation for follow-up questions about names containing '.' or '\\' (re-encoded differently, see known findings of C08).",
   ref="§6 C04"),
  "C05": dict(
   technique="runtime trace monitor against the delivered-record history model: departure instants (goodbye + 1 s, PTR expiry, verify timeout) computed from the history, every ServiceRemoved and every departure judged both ways",
-  text="The browser scenarios of C03 with TTLs 1 s..4500 s, verify timeouts {0, 1, 400, 999, 1000, 1001, 1500, 2750 ms, 10 s, 1 h}, refresh queries answered or not, lossy deliveries, horizons 3 x largest TTL: instance names with capitals: each departure must produce exactly one ServiceRemoved on time (D2-D4) and each ServiceRemoved must be explained by a departure (D5).",
+  text="The browser scenarios of C03 with TTLs 1 s..4500 s, verify timeouts {0, 1, 400, 999, 1000, 1001, 1500, 2750 ms, 10 s, 1 h}, refresh queries answered or not, lossy deliveries, horizons 3 x largest TTL: instance names with capitals: each departure must produce exactly one ServiceRemoved on time (D2-D4) and each ServiceRemoved must be explained by a departure (D5), also when one of two interfaces the instance was learned on goes away (the scenarios of C18 part P).",
   note="A removal up to one second before a record's expiry is accepted (the crate treats the last second of a record as gone).",
   ref="§6 C05"),
  "C06": dict(
@@ -88,7 +88,7 @@ CLAIMS = {
   ref="§6 C09"),
  "C10": dict(
   technique="runtime monitor on both sides: responder reference model with known answers around the half-TTL boundary; every query of a browsing daemon parsed and its known answers checked against the delivered-record history",
-  text="Responder: the C06 scenarios with 1-4 known answers per query drawn from the responder's own records with TTL in {0, 1, half-1, half, half+1, full, 2^32-1}, near misses (other RDATA, class, case), with/without cache-flush bit (K1, K2). Querier: a PTR of TTL {4, 10, 20, 120} s cached, the type browsed again at every age 0-100 % in 1 % steps and every 20 ms within 1.2 s of half life; every later query parsed: only shared records held with at least half their life left (K3), written with the remaining TTL (K4), on every interface and family (K5).",
+  text="Responder: the C06 scenarios with 1-4 known answers per query drawn from the responder's own records with TTL in {0, 1, half-1, half, half+1, full, 2^32-1}, near misses (other RDATA, class, case), with/without cache-flush bit (K1, K2); what only a suppressed answer would have brought must stay out of the additional section (K2-additionals). Querier: a PTR of TTL {4, 10, 20, 120} s cached, the type browsed again at every age 0-100 % in 1 % steps and every 20 ms within 1.2 s of half life; every later query parsed: only shared records held with at least half their life left (K3), written with the remaining TTL (K4), on every interface and family (K5).",
   note="Ages within one second of the half life may or may not be listed; case-only matches may or may not suppress.",
   ref="§6 C10"),
  "C17": dict(
@@ -98,7 +98,7 @@ CLAIMS = {
   ref="§6 C17"),
  "C18": dict(
   technique="runtime monitor: a selection model (call order, last match wins, later interfaces) compared at checkpoints with the daemon's interface table read from hooked state and with the links a fresh query leaves on; per-packet link/subnet rules on the simulated wire; event and cache-snapshot checks after interface loss",
-  text="Part S: 1-4 interfaces (v4/v6/both, two subnets on one interface, loopback) x 1-6 operations among enable/disable with every IfKind (All, IPv4, IPv6, Name, Addr present/absent/later, Loopback, IndexV4/V6, Predicate) and table edits (address added/removed/moved, interface down/up/added/removed), announcements injected on links that are on or off (I3). Part E: up to three selection calls, then explicit and automatic addresses: packets about a service only where it has an address in the link's subnet, carrying only that link's addresses; automatic services follow new addresses (I1, I2). Part P: instances (host names in mixed letter case in half of the cases) learned over two interfaces, then one disappears or is disabled wholly or by family: ServiceRemoved / re-resolved with what is left, nothing learned there reported again, nothing of it left in the cache (I4, I5).",
+  text="Part S: 1-4 interfaces (v4/v6/both, two subnets on one interface, loopback) x 1-6 operations among enable/disable with every IfKind (All, IPv4, IPv6, Name, Addr present/absent/later, Loopback, IndexV4/V6, Predicate) and table edits (address added/removed/moved, interface down/up/added/removed), announcements injected on links that are on or off (I3). Part E: up to three selection calls, then explicit and automatic addresses: packets about a service only where it has an address in the link's subnet, carrying only that link's addresses; automatic services follow new addresses (I1, I2). Part P: instances (host names in mixed letter case in half of the cases) learned over two interfaces, then one disappears or is disabled wholly or by family: ServiceRemoved / re-resolved with what is left, nothing learned there reported again, nothing of it left in the cache; either interface may be the one that goes and in half of those cases the other follows (I4, I5).",
   note="Nothing is judged for one interface-check interval after a table edit (the daemon cannot know yet).",
   ref="§6 C18"),
  "C20": dict(
